@@ -1,12 +1,453 @@
-/- C17 model — placeholder until the property is built -/
+/-
+  C17 — `CrashFs`: a POSIX-style persistence model for the key-value store's write path.
+
+  Mirrors (klongpy/db):
+    file_cache.py  FileCache._write_file      -> `setOps` (parametrised by the statement skeleton
+                                                 `Sk` that vlib/c17.py extracts from the AST, the
+                                                 `use_fsync` flag and the io buffer size)
+    file_cache.py  FileCache.update_file      -> `Op.begin … Op.ret` (future.result(): the set
+                                                 returns after the worker has finished)
+    sys_fn_kvs.py  KeyValueStorage.set / get  -> `begin k v` / `recover`
+    helpers.py     key_to_file_path           -> identity: a key *is* a relative path
+
+  The operating system, the file system and the disk are *replaced* by this model:
+    * a volatile view (what system calls observe) and a durable view (what survives power loss)
+      of directories, directory entries and file contents;
+    * operations mkdir, creatTrunc (open 'wb'), write, fsyncFile, fsyncDir, close, plus the
+      markers begin (a set starts) / ret (the set returns);
+    * `crash` = every image obtainable by keeping the durable view and, independently for each
+      unsynced effect, none / all / (for a write) a byte prefix of it;
+    * `recover` = what a fresh store reads for a key on such an image;
+    * two variants: `strict` (a new directory entry is durable only after fsync of the directory
+      holding it) and `journalled` (fsync(file) also persists the entry and its ancestors' entries).
+
+  The sequential cache (memory accounting, eviction) is C16 and is not repeated here.
+-/
 import Klong.Model.Wire
 namespace Klong.C17
+open Klong.Wire
 
-structure State where
-  unit : Unit := ()
+/-- a path relative to the store root, as its components (interned as numbers by the harness);
+    the root itself is `[]` and is assumed to exist durably -/
+abbrev Path := List Nat
 
-def init : State := {}
+def parent (p : Path) : Path := p.dropLast
 
-def handle (s : State) (_ws : List String) : State × String := (s, "bad-op")
+/-- proper ancestors of `p` below the root, shallowest first (`a/b/c ↦ a, a/b`) -/
+def ancestors : Path → List Path
+  | [] => []
+  | [_] => []
+  | x :: y :: rest => [x] :: (ancestors (y :: rest)).map (x :: ·)
+
+inductive Variant
+  | strict
+  | journalled
+deriving DecidableEq, Repr
+
+/-- an unsynced effect on a file's contents -/
+inductive Eff
+  | trunc
+  | write (off : Nat) (data : Bytes)
+deriving DecidableEq, Repr
+
+/-! ### association lists keyed by path -/
+
+def setKV {α : Type} (l : List (Path × α)) (k : Path) (x : α) : List (Path × α) :=
+  (k, x) :: l.filter (fun p => p.1 != k)
+
+def names {α : Type} (l : List (Path × α)) : List Path := l.map (·.1)
+
+/-! ### file-system state -/
+
+structure Fs where
+  vdirs  : List Path := []                 -- directories in the volatile namespace
+  vfiles : List (Path × Bytes) := []       -- files in the volatile namespace with their contents
+  ddirs  : List Path := []                 -- directories whose entry in the parent is durable
+  dents  : List Path := []                 -- files whose entry in the parent is durable
+  dcont  : List (Path × Bytes) := []       -- inode contents as of the last fsync (new inode: empty)
+  pend   : List (Path × List Eff) := []    -- unsynced effects on the contents, oldest first
+  opened : List Path := []                 -- files with an open descriptor
+deriving Repr
+
+def Fs.pendOf (fs : Fs) (f : Path) : List Eff := (fs.pend.lookup f).getD []
+def Fs.contOf (fs : Fs) (f : Path) : Bytes := (fs.vfiles.lookup f).getD []
+def Fs.isFile (fs : Fs) (f : Path) : Bool := (names fs.vfiles).contains f
+def Fs.isDir (fs : Fs) (d : Path) : Bool := d == [] || fs.vdirs.contains d
+
+inductive Op
+  | begin (k : Path) (v : Bytes)      -- KeyValueStorage.set(k, v) starts; v = the pickled value
+  | mkdir (d : Path)
+  | creatTrunc (f : Path)             -- open(f, 'wb'): create if missing, truncate, keep open
+  | write (f : Path) (data : Bytes)   -- write(2) at the current offset (= current length)
+  | fsyncFile (f : Path)
+  | fsyncDir (d : Path)
+  | close (f : Path)
+  | ret                               -- the set returns to its caller
+deriving DecidableEq, Repr
+
+/-- effect of a file-system operation on both views (no precondition checks; see `ok`) -/
+def Fs.step (v : Variant) (fs : Fs) : Op → Fs
+  | .begin _ _ => fs
+  | .ret => fs
+  | .mkdir d => { fs with vdirs := d :: fs.vdirs }
+  | .creatTrunc f =>
+    if fs.isFile f then
+      { fs with vfiles := setKV fs.vfiles f []
+              , pend := setKV fs.pend f (fs.pendOf f ++ [Eff.trunc])
+              , opened := f :: fs.opened }
+    else
+      { fs with vfiles := setKV fs.vfiles f []
+              , dcont := setKV fs.dcont f []
+              , pend := setKV fs.pend f []
+              , opened := f :: fs.opened }
+  | .write f data =>
+    { fs with vfiles := setKV fs.vfiles f (fs.contOf f ++ data)
+            , pend := setKV fs.pend f (fs.pendOf f ++ [Eff.write (fs.contOf f).length data]) }
+  | .fsyncFile f =>
+    let fs1 := { fs with dcont := setKV fs.dcont f (fs.contOf f), pend := setKV fs.pend f [] }
+    match v with
+    | .strict => fs1
+    | .journalled => { fs1 with dents := f :: fs1.dents, ddirs := ancestors f ++ fs1.ddirs }
+  | .fsyncDir d =>
+    { fs with ddirs := fs.vdirs.filter (fun p => parent p == d) ++ fs.ddirs
+            , dents := (names fs.vfiles).filter (fun p => parent p == d) ++ fs.dents }
+  | .close f => { fs with opened := fs.opened.filter (· != f) }
+
+/-- machine state: file system + which set is in progress + the completed sets (latest first) -/
+structure St where
+  fs   : Fs := {}
+  cur  : Option (Path × Bytes) := none
+  done : List (Path × Bytes) := []
+deriving Repr
+
+def init : St := {}
+
+def step (v : Variant) (s : St) (op : Op) : St :=
+  match op with
+  | .begin k val => { s with cur := some (k, val) }
+  | .ret =>
+    match s.cur with
+    | some kv => { s with cur := none, done := kv :: s.done }
+    | none => s
+  | op => { s with fs := s.fs.step v op }
+
+def run (v : Variant) (s : St) (tr : List Op) : St := tr.foldl (step v) s
+
+/-- the durable view alone already determines `k ↦ val` -/
+def durableAs (fs : Fs) (k : Path) (val : Bytes) : Bool :=
+  fs.isFile k && fs.dcont.lookup k == some val && (fs.pendOf k).isEmpty &&
+  fs.dents.contains k && (ancestors k).all (fun a => fs.ddirs.contains a)
+
+def curKey (s : St) : Option Path := s.cur.map (·.1)
+
+/-- well-formedness of one operation in a state.  For the operations of a set of key `k`:
+    everything touches only `k`'s file and `k`'s ancestor directories; system-call preconditions
+    hold (so the model's outcome is the POSIX outcome); and at the return the volatile file holds
+    the full value, nothing of it is unsynced (the fsync came after the last write), the
+    descriptor is closed, the file's entry and the entries of all its ancestors are durable. -/
+def ok (s : St) : Op → Bool
+  | .begin k _ =>
+    s.cur.isNone && k != [] && !s.fs.isDir k && (ancestors k).all (fun a => !s.fs.isFile a) &&
+    s.fs.opened.isEmpty
+  | .mkdir d =>
+    match s.cur with
+    | some (k, _) => (ancestors k).contains d && !s.fs.isDir d && !s.fs.isFile d && s.fs.isDir (parent d)
+    | none => false
+  | .creatTrunc f =>
+    curKey s == some f && !s.fs.opened.contains f && s.fs.isDir (parent f) && !s.fs.isDir f
+  | .write f _ => curKey s == some f && s.fs.opened.contains f
+  | .fsyncFile f => curKey s == some f && s.fs.opened.contains f
+  | .fsyncDir d => s.cur.isSome && s.fs.isDir d
+  | .close f => curKey s == some f && s.fs.opened.contains f
+  | .ret =>
+    match s.cur with
+    | some (k, val) =>
+      !s.fs.opened.contains k && s.fs.vfiles.lookup k == some val && durableAs s.fs k val
+    | none => false
+
+/-- run a trace, checking every operation; `none` as soon as one is not well-formed -/
+def runWF (v : Variant) (s : St) : List Op → Option St
+  | [] => some s
+  | op :: tr => if ok s op then runWF v (step v s op) tr else none
+
+/-- the decidable trace predicate of the per-run obligation -/
+def WF (v : Variant) (tr : List Op) : Bool := (runWF v init tr).isSome
+
+/-! ### the abstract side, read off the trace alone -/
+
+/-- completed sets (latest first) and the set in progress, from the begin/ret markers only -/
+def ghost : Option (Path × Bytes) × List (Path × Bytes) → List Op → Option (Path × Bytes) × List (Path × Bytes)
+  | g, [] => g
+  | (cur, done), op :: tr =>
+    match op with
+    | .begin k v => ghost (some (k, v), done) tr
+    | .ret =>
+      match cur with
+      | some kv => ghost (none, kv :: done) tr
+      | none => ghost (cur, done) tr
+    | _ => ghost (cur, done) tr
+
+def inProgress (tr : List Op) : Option Path := (ghost (none, []) tr).1.map (·.1)
+def lastCompleted (tr : List Op) (k : Path) : Option Bytes := (ghost (none, []) tr).2.lookup k
+
+/-! ### crash -/
+
+def pwrite (c : Bytes) (off : Nat) (data : Bytes) : Bytes :=
+  c.take off ++ List.replicate (off - c.length) 0 ++ data ++ c.drop (off + data.length)
+
+def applyEff (c : Bytes) : Eff → Bytes
+  | .trunc => []
+  | .write off data => pwrite c off data
+
+/-- what may reach the disk of one unsynced effect: nothing, all of it, or a non-empty proper
+    byte prefix of a write -/
+def effChoices : Eff → List (Option Eff)
+  | .trunc => [none, some .trunc]
+  | .write off data =>
+    none :: (List.range data.length).map (fun j => some (.write off (data.take (j + 1))))
+
+/-- contents obtainable from durable contents `c` and pending effects, each chosen independently -/
+def contentChoices (c : Bytes) : List Eff → List Bytes
+  | [] => [c]
+  | e :: es => (effChoices e).flatMap fun
+    | none => contentChoices c es
+    | some e' => contentChoices (applyEff c e') es
+
+/-- a file after the crash: absent (only if its entry is not durable) or present with one of the
+    obtainable contents -/
+def fileChoices (fs : Fs) (f : Path) : List (Option Bytes) :=
+  (if fs.dents.contains f then [] else [none]) ++
+  (contentChoices ((fs.dcont.lookup f).getD []) (fs.pendOf f)).map some
+
+def crashFiles (fs : Fs) : List Path → List (List (Path × Bytes))
+  | [] => [[]]
+  | f :: rest => (fileChoices fs f).flatMap fun o => (crashFiles fs rest).map fun r =>
+    match o with
+    | none => r
+    | some b => (f, b) :: r
+
+def subsets {α : Type} : List α → List (List α)
+  | [] => [[]]
+  | x :: xs => (subsets xs).flatMap fun r => [r, x :: r]
+
+/-- the durable directories plus any subset of the others -/
+def dirChoices (fs : Fs) : List (List Path) :=
+  (subsets (fs.vdirs.filter (fun d => !fs.ddirs.contains d))).map (· ++ fs.ddirs)
+
+/-- what is on the disk after a crash: directory entries and file entries with contents (an
+    object is reachable only if all its ancestors' entries are there too — see `recover`) -/
+structure Image where
+  dirs  : List Path
+  files : List (Path × Bytes)
+deriving Repr, DecidableEq
+
+def crash (fs : Fs) : List Image :=
+  (dirChoices fs).flatMap fun D => (crashFiles fs (names fs.vfiles)).map fun F => ⟨D, F⟩
+
+/-- `KeyValueStorage(root).get(k)` on the image, before unpickling: the file's bytes, or `none`
+    (→ `:undefined`, not a failure) when the path does not resolve -/
+def recover (c : Image) (k : Path) : Option Bytes :=
+  if (ancestors k).all (fun a => c.dirs.contains a) then c.files.lookup k else none
+
+/-- the image a process kill leaves (nothing that reached the kernel is lost) -/
+def volatileImage (fs : Fs) : Image := ⟨fs.vdirs, fs.vfiles⟩
+
+/-! ### `_write_file` as a statement skeleton (extracted from the AST on every run) -/
+
+inductive Sk
+  | scanNew               -- new_entry_dirs = _dirs_gaining_entry(path)
+  | makedirs              -- os.makedirs(parent, exist_ok=True)
+  | openWb                -- with open(path, 'wb') as f:
+  | write                 -- f.write(new_file_contents)   (into the BufferedWriter)
+  | flush (cond : Bool)   -- f.flush(), `cond`: under `if use_fsync`
+  | fsync (cond : Bool)   -- os.fsync(f.fileno()), `cond`: under `if use_fsync`
+  | close                 -- end of the with block (flushes)
+  | fsyncNew (cond : Bool) -- for d in new_entry_dirs: _fsync_dir(d)
+deriving DecidableEq, Repr
+
+/-- `_dirs_gaining_entry`: the parent of every component of `k` that does not exist yet,
+    deepest first -/
+def newParents (fs : Fs) (k : Path) : List Path :=
+  ((if fs.isFile k then [] else [k]) ++ ((ancestors k).reverse.filter fun a => !fs.isDir a)).map parent
+
+structure SkSt where
+  st  : St
+  buf : Bytes := []            -- the BufferedWriter's buffer
+  new : List Path := []
+  out : List Op := []
+
+def SkSt.emit (v : Variant) (x : SkSt) (ops : List Op) : SkSt :=
+  { x with st := run v x.st ops, out := x.out ++ ops }
+
+def SkSt.flush (v : Variant) (x : SkSt) (k : Path) : SkSt :=
+  if x.buf.isEmpty then x else { x.emit v [.write k x.buf] with buf := [] }
+
+def skStep (v : Variant) (flag : Bool) (bufsize : Nat) (k : Path) (val : Bytes) (x : SkSt) : Sk → SkSt
+  | .scanNew => { x with new := newParents x.st.fs k }
+  | .makedirs => x.emit v (((ancestors k).filter fun a => !x.st.fs.isDir a).map Op.mkdir)
+  | .openWb => x.emit v [.creatTrunc k]
+  | .write =>
+    -- CPython BufferedWriter.write: fits into the buffer → no system call; otherwise flush
+    -- what is buffered and hand the data to the raw file in one call
+    if x.buf.length + val.length ≤ bufsize then { x with buf := x.buf ++ val }
+    else (x.flush v k).emit v [.write k val]
+  | .flush cond => if !cond || flag then x.flush v k else x
+  | .fsync cond => if !cond || flag then x.emit v [.fsyncFile k] else x
+  | .close => (x.flush v k).emit v [.close k]
+  | .fsyncNew cond => if !cond || flag then x.emit v (x.new.map Op.fsyncDir) else x
+
+/-- operations of one `set k val` from state `s` -/
+def setOps (v : Variant) (sk : List Sk) (flag : Bool) (bufsize : Nat) (s : St) (k : Path) (val : Bytes) : List Op :=
+  let x0 : SkSt := { st := s }
+  let x1 := x0.emit v [.begin k val]
+  let x2 := sk.foldl (skStep v flag bufsize k val) x1
+  (x2.emit v [.ret]).out
+
+/-- concatenated trace of a sequence of sets -/
+def traceOf (v : Variant) (sk : List Sk) (flag : Bool) (bufsize : Nat) : St → List (Path × Bytes) → List Op
+  | _, [] => []
+  | s, (k, val) :: rest =>
+    let ops := setOps v sk flag bufsize s k val
+    ops ++ traceOf v sk flag bufsize (run v s ops) rest
+
+/-- `_write_file` of the pinned tree (2f5072a): no flush, no directory fsync -/
+def skPinned : List Sk := [.makedirs, .openWb, .write, .fsync true, .close]
+/-- `_write_file` after the two `fix:` commits of branch fix-c17 -/
+def skFixed : List Sk := [.scanNew, .makedirs, .openWb, .write, .flush true, .fsync true, .close, .fsyncNew true]
+
+/-! ### driver -/
+
+def showPath (p : Path) : String := if p.isEmpty then "-" else ".".intercalate (p.map toString)
+
+def parsePath (s : String) : Option Path :=
+  if s == "-" || s == "" then some [] else (splitOnChar s '.').mapM String.toNat?
+
+def sortStrs (l : List String) : List String := (l.toArray.qsort (· < ·)).toList
+
+def dedupStrs : List String → List String
+  | [] => []
+  | [x] => [x]
+  | x :: y :: r => if x == y then dedupStrs (y :: r) else x :: dedupStrs (y :: r)
+
+def showSet (l : List String) : String := ",".intercalate (dedupStrs (sortStrs l))
+
+def showOp : Op → String
+  | .begin k v => s!"begin:{showPath k}:{toHex v}"
+  | .mkdir d => s!"mkdir:{showPath d}"
+  | .creatTrunc f => s!"creat:{showPath f}"
+  | .write f d => s!"write:{showPath f}:{toHex d}"
+  | .fsyncFile f => s!"fsync:{showPath f}"
+  | .fsyncDir d => s!"fsyncdir:{showPath d}"
+  | .close f => s!"close:{showPath f}"
+  | .ret => "ret"
+
+def parseOp (s : String) : Option Op :=
+  match s.splitOn ":" with
+  | ["begin", k, v] => do pure (.begin (← parsePath k) (← parseHex v))
+  | ["mkdir", d] => (parsePath d).map .mkdir
+  | ["creat", f] => (parsePath f).map .creatTrunc
+  | ["write", f, d] => do pure (.write (← parsePath f) (← parseHex d))
+  | ["fsync", f] => (parsePath f).map .fsyncFile
+  | ["fsyncdir", d] => (parsePath d).map .fsyncDir
+  | ["close", f] => (parsePath f).map .close
+  | ["ret"] => some .ret
+  | _ => none
+
+def parseSk (s : String) : Option Sk :=
+  match s with
+  | "scan" => some .scanNew
+  | "makedirs" => some .makedirs
+  | "open" => some .openWb
+  | "write" => some .write
+  | "flush" => some (.flush false)
+  | "flush?" => some (.flush true)
+  | "fsync" => some (.fsync false)
+  | "fsync?" => some (.fsync true)
+  | "close" => some .close
+  | "fsyncnew" => some (.fsyncNew false)
+  | "fsyncnew?" => some (.fsyncNew true)
+  | _ => none
+
+/-- reachable part of an image, canonical -/
+def showImage (c : Image) : String :=
+  let reach (p : Path) : Bool := (ancestors p).all (fun a => c.dirs.contains a)
+  let ds := (c.dirs.filter reach).map showPath
+  let fsn := (c.files.filter (fun p => reach p.1)).map fun p => s!"{showPath p.1}@{toHex p.2}"
+  s!"dirs={showSet ds};files={showSet fsn}"
+
+def showRecover (c : Image) (keys : List Path) : String :=
+  ",".intercalate (keys.map fun k =>
+    match recover c k with
+    | none => s!"{showPath k}@missing"
+    | some b => s!"{showPath k}@{toHex b}")
+
+def digest (s : St) : String :=
+  let fs := s.fs
+  let vf := fs.vfiles.map fun p => s!"{showPath p.1}@{toHex p.2}"
+  let dc := fs.dcont.map fun p => s!"{showPath p.1}@{toHex p.2}"
+  let pe := (fs.pend.filter (fun p => !p.2.isEmpty)).map fun p => s!"{showPath p.1}@{p.2.length}"
+  s!"vdirs={showSet (fs.vdirs.map showPath)} vfiles={showSet vf} ddirs={showSet (fs.ddirs.map showPath)} " ++
+  s!"dents={showSet (fs.dents.map showPath)} dcont={showSet dc} pend={showSet pe} " ++
+  s!"open={showSet (fs.opened.map showPath)} cur={(curKey s).elim "none" showPath} done={s.done.length}"
+
+/-- driver state: variant, machine state, whether every operation so far was well-formed -/
+structure DSt where
+  v  : Variant := .strict
+  st : St := {}
+  wf : Bool := true
+
+def dinit : DSt := {}
+
+def handle (d : DSt) (ws : List String) : DSt × String :=
+  match ws with
+  | "new" :: rest =>
+    match fieldD (fields rest) "variant" with
+    | "strict" => ({ v := .strict }, "ok")
+    | "journalled" => ({ v := .journalled }, "ok")
+    | _ => (d, "bad-op")
+  | ["op", o] =>
+    match parseOp o with
+    | some op =>
+      let good := ok d.st op
+      let d' := { d with st := step d.v d.st op, wf := d.wf && good }
+      (d', s!"ok good={if good then 1 else 0} wf={if d'.wf then 1 else 0} {digest d'.st}")
+    | none => (d, "bad-op")
+  | "setops" :: rest =>
+    -- the model's operations for the next set from the current state (does not step)
+    let fs := fields rest
+    match (listField fs "sk").mapM parseSk, natField fs "flag", natField fs "buf",
+          parsePath (fieldD fs "k"), parseHex (fieldD fs "v") with
+    | some sk, some fl, some bs, some k, some v =>
+      (d, "ops=" ++ ";".intercalate ((setOps d.v sk (fl != 0) bs d.st k v).map showOp))
+    | _, _, _, _, _ => (d, "bad-op")
+  | ["crashcount"] => (d, s!"n={(crash d.st.fs).length}")
+  | "images" :: rest =>
+    -- selected crash images (by index into `crash`) with what `recover` reads for the given keys
+    let fs := fields rest
+    match (listField fs "idx").mapM String.toNat?, (listField fs "keys").mapM parsePath with
+    | some idx, some keys =>
+      let cs := (crash d.st.fs).toArray
+      let out := idx.map fun i =>
+        match cs[i]? with
+        | some c => s!"{showImage c};rec={showRecover c keys}"
+        | none => "none"
+      (d, "imgs=" ++ "|".intercalate out)
+    | _, _ => (d, "bad-op")
+  | "kill" :: rest =>
+    -- the image left by a process kill (volatile view), same format
+    match (listField (fields rest) "keys").mapM parsePath with
+    | some keys =>
+      let c := volatileImage d.st.fs
+      (d, s!"img={showImage c};rec={showRecover c keys}")
+    | none => (d, "bad-op")
+  | ["spec"] =>
+    -- completed sets (latest value per key) and the key in progress
+    let ks := dedupStrs (sortStrs (d.st.done.map fun p => showPath p.1))
+    let items := ks.filterMap fun k =>
+      match parsePath k with
+      | some p => (d.st.done.lookup p).map fun b => s!"{k}@{toHex b}"
+      | none => none
+    (d, s!"cur={(curKey d.st).elim "none" showPath} done={",".intercalate items}")
+  | _ => (d, "bad-op")
 
 end Klong.C17
